@@ -277,11 +277,16 @@ def c13(ctx):
             ins.append((('ab' + '汉') * 30000).encode())          # long input
             ins.append(b'\xff' * 5000)
         inputs_of[r['id']] = ins
+        warm = max(base, key=len) if base else b'abc'
+        warm = warm + warm + b'abc\xe6\xb1\x89'
         lst = []
         for ii, s in enumerate(ins):
             k = '%s|%d' % (r['id'], ii)
             for memo in (True, False):
                 cases.append({'pkg': r['id'], 'k': k + ('|m' if memo else '|n'), 'entry': 'R0', 'memo': memo, 'b64': L.b64(s)})
+            # the same input as the SECOND use of a parser object that parsed a longer text before (stale offsets must not leak)
+            if len(s) < 2000:
+                cases.append({'pkg': r['id'], 'k': k + '|w', 'entry': 'R0', 'memo': True, 'b64': L.b64(s), 'warm': L.b64(warm)})
             if len(s) < 2000:
                 lst.append({'k': k + '|m', 'entry': 'R0', 'memo': True, 'bytes': L.bytes_of(s), 'spec': True})
         mreq[r['id']] = {'id': r['id'], 'tree': x['tree'], 'opts': '', 'cases': lst}
@@ -299,6 +304,16 @@ def c13(ctx):
         elif not tokens_in_range(o, nr):
             ctx.add('spec', 'T-run/bytes', 'token offsets outside the rune sequence (%d runes) for input %r' % (nr, s[:60]),
                     {'grammar': reqs[int(rid[1:])]['text'], 'input_b64': L.b64(s), 'obs': o})
+    nwarm = 0
+    for k, o in robs.items():
+        if k.endswith('|w'):
+            nwarm += 1
+            f = robs.get(k[:-2] + '|m') or {}
+            d = L.obs_equal(f, o, True)
+            if d:
+                rid, ii, _ = k.split('|')
+                ctx.add('spec', 'T-run/bytes-reuse', 'a reused parser (a longer text parsed before, then Buffer/Reset/Parse) differs from a fresh one on %s' % d,
+                        {'grammar': reqs[int(rid[1:])]['text'], 'input_b64': L.b64(inputs_of[rid][int(ii)]), 'fresh': f, 'reused': o})
     for m in T.run_model('run', list(mreq.values())):
         for ob in m.get('obs', []):
             ro = robs.get(ob['k'])
@@ -341,7 +356,7 @@ def c13(ctx):
         'evaluations': neval + nship, 'distinct_nontrivial': sum(1 for o in robs.values() if o.get('v') == 'ok'),
         'rule': 'byte-level inputs (empty, NUL, invalid UTF-8 of every kind, surrogate encodings, non-BMP, U+10FFFF, 90000-rune and 5000-invalid-byte inputs, '
                 'mutations of accepted samples) x generated grammars (memo on/off; real vs model vs spec, offsets checked against Go\'s []rune conversion) and x the shipped '
-                'grammars peg, calculator, calculatorast, c, java, fexl, long under default and -inline -switch (no panic, offsets in range, Error() produced); '
+                'grammars peg, calculator, calculatorast, c, java, fexl, long under default and -inline -switch (no panic, offsets in range, Error() produced); every generated-grammar input also as the second use of a parser that parsed a longer text before; '
                 'non-trivial = accepted inputs',
         'samples': [{'input_b64': L.b64(s)} for s in byte_inputs(rng, [], 16)[:4]],
         'input_distribution': {'generated_grammars': len(good), 'generated_cases': neval, 'shipped_parsers': len(good2), 'shipped_cases': nship, 'panics': npan},
